@@ -63,7 +63,7 @@ func c07Make(s *gen.Spec) *c07Rule {
 // c07BuildPool enumerates every combination of the features the comparison
 // reads.
 func c07BuildPool() {
-	domains := [][]gen.Val{nil, {{Name: "d.com"}}, {{Name: "d.com", Neg: true}}, {{Name: "d.com"}, {Name: "e.com", Neg: true}}}
+	domains := [][]gen.Val{nil, {{Name: "d.com"}}, {{Name: "d.com", Neg: true}}, {{Name: "d.com"}, {Name: "e.com", Neg: true}}, {{Name: "d.*"}}, {{Name: "d.*"}, {Name: "e.*", Neg: true}}}
 	types := []struct{ p, r []string }{
 		{nil, nil}, {[]string{"script"}, nil}, {[]string{"script", "image"}, nil}, {nil, []string{"font"}}, {[]string{"script"}, []string{"font"}},
 	}
@@ -202,7 +202,7 @@ func init() {
 	core.Register(&core.Prop{
 		ID:    "C07",
 		Level: "exploration",
-		Rule: fmt.Sprintf("pool = every combination of the features the comparison reads (exception x important x 4 $domain shapes x 5 content-type shapes x third-party x match-case x $dnstype x $ctag x $client x $denyallow, plus rules carrying 10..16 modifiers (all content types and more), = %d rules); "+
+		Rule: fmt.Sprintf("pool = every combination of the features the comparison reads (exception x important x 6 $domain shapes (incl. wildcard-TLD only) x 5 content-type shapes x third-party x match-case x $dnstype x $ctag x $client x $denyallow, plus rules carrying 10..16 modifiers (all content types and more), = %d rules); "+
 			"exhaustive over the pool: irreflexivity, asymmetry and agreement with class order / specific-over-generic for all ordered pairs, add-one-modifier => strictly higher for every rule; "+
 			"transitivity of > and of incomparability on all triples of PRNG-drawn 90-rule subsets; selection maximality for candidate lists of 2..5 rules in all permutations through NewMatchingResult and GetDNSBasicRule, and through NetworkEngine.Match / Engine.MatchRequest with the candidates spread over the three lookup tables; "+
 			"non-trivial = pool rule compared against the whole pool (its ordered pairs are counted in events.ordered_pairs), triple subset, or candidate list; distinct by the rule texts involved", len(c07Pool)),
